@@ -22,6 +22,11 @@ CHECKS = {
    text='Gen/Cdp2adp_gen.v is regenerated from the source on every run and Props/C07.v is re-checked against it: for every number type (floats included) the returned rho/eps pass the code\'s own test (sound) and the other bisection end fails it; on the reals cdp_delta equals the published Renyi-order bound at an alpha in [1.01, amax0], the tested expression is the derivative of the log-bound (Coquelicot), is increasing, the optimum is bracketed at every iteration with width (amax0-1.01)/2^n, and the bound is monotone in rho and eps for every order. The generated functions are executed on floats against the real functions, and a property oracle (exact Gaussian delta, golden-section optimum, monotonicity, round trips) searches the code for a failing input.',
    design='4/C07',
    note='Trusted: Coq kernel, translator/py2gallina.py (validated per run), extraction + ocaml/cdp driver (libm exp/log/log1p/sqrt). Axioms under the R theorems: the standard Reals axioms (sig_forall_dec, sig_not_dec, functional_extensionality_dep) and Classical_Prop.classic; the generic soundness theorems are closed. NOT proved: Bound(alpha) >= exact Gaussian delta (published Prop. 12) - observed on the grid; monotonicity/inverse of the composed conversions - observed.'),
+ 'C08': dict(
+   technique='Coq proof (answers of the modelled query paths are marginals of one explicit joint => agree on shared attributes, sum to the total; linearity of marginalisation) + exact-rational differential check of every returned model against the joint of its stored parameters',
+   text='Props/C08.v: any two marginals of the explicit joint agree on the attributes they share and each sums to the total; marginalisation is linear (averaged iterates of consistent marginals are consistent); non-negativity is carried by the executed type. Each run takes the model returned by estimate (MD/RDA/IG, 1/2/50 iterations, early exits on empty measurement lists, structural zeros on/off, known/estimated totals), converts exp(stored potentials) to exact rationals and compares the stored clique marginals, in- and out-of-clique answers and the data vector with the exact joint marginals computed by the extracted model, plus finiteness/sign/sum.',
+   design='4/C08',
+   note='partial: mle_reproduces (BP(mle mu) = mu on a junction tree), which is what makes the RDA/IG parameters coherent with their averaged marginals, is NOT proved; it is observed per run. Known finding: float64 absorption for potentials beyond ~1e13 (known_findings.json). Axiom: functional_extensionality_dep.'),
  'C09': dict(
    technique='Coq proof over exact rationals (unbiasedness of accepted estimators, inverse-variance combination of equal estimates, lower bound 1) with the least-squares solution as oracle input + differential correspondence of the four copies of the estimation',
    text='Props/C09.v: an estimator v accepted by the row-space test Q^T v = 1 returns sum(x) on noise-free answers; the inverse-variance combination of estimates all equal to N >= 1 is N; the result is >= 1 and is 1 when nothing is accepted. Every run drives the four copies (FactoredInference.estimate with MD/RDA/IG and earlier calls on the same engine, LocalInference._setup, public_inference.estimate_total, mixture_inference.estimate_total exec\'d from source) over the query families of the quantifier, records the lsmr output, evaluates the exact model on it, and checks selection (exactly the measurements whose row space contains the ones vector, by dense lstsq), noise-free => N, known totals used exactly.',
